@@ -7,14 +7,17 @@ pid, k = sys.argv[1], sys.argv[2]
 props = None
 if '--props' in sys.argv:
     props = sys.argv[sys.argv.index('--props') + 1].split(',')
-wt = '/tmp/mut_' + pid
+rnd = ''
+if '--round' in sys.argv:
+    rnd = sys.argv[sys.argv.index('--round') + 1]
+wt = ('/tmp/mut%s_' % rnd if rnd else '/tmp/mut_') + pid
 out = os.path.join(wt, 'OUT')
 diff = os.path.join(out, 'mut%s.diff' % k)
 demo = os.path.join(out, 'demo_%s.rs' % k)
 def sh(cmd, cwd=None):
     r = subprocess.run(cmd, shell=True, cwd=cwd, capture_output=True, text=True)
     return r.returncode, r.stdout + r.stderr
-meta = dict(id='%s-%s' % (pid, k), property=pid, confirmed={})
+meta = dict(id='%s-%s%s' % (pid, k, ('-r' + rnd) if rnd else ''), property=pid, confirmed={}, round=int(rnd) if rnd else 1)
 # --- confirm in the scratch worktree
 sh('git checkout -- src && rm -rf tests', wt)
 os.makedirs(os.path.join(wt, 'tests'), exist_ok=True)
@@ -44,6 +47,12 @@ meta['what_it_needs'] = open(os.path.join(out, 'mut%s.md' % k)).read()[:3000]
 meta['ran'] = ['cargo test --offline --test demo (with and without the change, in a scratch worktree)', 'cargo test --offline (with the change)', './check <prop> with the patch applied to /repo, then git checkout -- .']
 d = os.path.join(V, 'seeded', meta['id'])
 os.makedirs(d, exist_ok=True)
+# keep the verdict of the first evaluation (generators as they were when the change was written)
+try:
+    old = json.load(open(os.path.join(d, 'meta.json')))
+    meta['first_check_results'] = old.get('first_check_results', old.get('check_results'))
+except OSError:
+    meta['first_check_results'] = meta['check_results']
 shutil.copy(diff, os.path.join(d, 'patch.diff'))
 shutil.copy(demo, os.path.join(d, 'demo.rs'))
 json.dump(meta, open(os.path.join(d, 'meta.json'), 'w'), indent=1)
